@@ -90,7 +90,7 @@ macro_rules! c15_read_exact {
 }
 // @ob C15 quick read_exact_8b_5calls fns=Read::read_exact,default_read_exact bound="data 0..=8 bytes, request 0..=8 bytes, <=5 reader calls each returning k bytes (0<k<=len) | 0 at end | EINTR | EIO" timeout=900
 c15_read_exact!(read_exact_8b_5calls, 5, 10);
-// @ob C15 thorough read_exact_8b_9calls fns=Read::read_exact,default_read_exact bound="as quick, <=9 reader calls" timeout=3000
+// @ob C15 quick read_exact_8b_9calls fns=Read::read_exact,default_read_exact bound="as quick, <=9 reader calls" timeout=3000
 c15_read_exact!(read_exact_8b_9calls, 9, 12);
 
 // read_to_end: exact-fit capacity, probe buffer, growth.  (Round 0 probes with symbolic capacities exhausted 40-60 GB; this
@@ -209,7 +209,7 @@ macro_rules! c15_write_all {
 }
 // @ob C15 quick write_all_8b_5calls fns=Write::write_all bound="0..=8 bytes, <=5 writer calls each accepting k bytes (0<=k<=len) | EINTR | EIO" timeout=900
 c15_write_all!(write_all_8b_5calls, 5, 10);
-// @ob C15 thorough write_all_8b_9calls fns=Write::write_all bound="as quick, <=9 writer calls" timeout=3000
+// @ob C15 quick write_all_8b_9calls fns=Write::write_all bound="as quick, <=9 writer calls" timeout=3000
 c15_write_all!(write_all_8b_9calls, 9, 12);
 
 // @ob C15 quick write_fmt_4b fns=Write::write_fmt,Adapter::write_str,core::fmt::write bound="one `{}` of an ASCII str of 0..=4 bytes between two literal pieces, <=6 writer calls with short writes | EINTR | EIO" timeout=1500
